@@ -2048,3 +2048,25 @@ MUTANTS.append({"id": "C02-benign-dead-code-flag-set-by-expression", "prop": "C0
 M("C20-merge-looks-up-plain-name", "C20", "src/interrogatedb/interrogateDatabase.cxx",
   "      ni = types_by_name.find(other_type.get_true_name());", "      ni = types_by_name.find(other_type.get_name());",
   expect="R20.11|merge_from|types_by_name.find")
+
+# ---- R15.25 (F-C15v, F-C15w: nullable lookup results)
+F_ID = "src/cppparser/cppIdentifier.cxx"
+M("C15-find-type-derefs-missing-symbol", "C15", F_ID,
+  "    if (decl != nullptr) {\n      type = decl->as_type();\n    }\n", "    type = decl->as_type();\n",
+  expect="R15.25|CPPIdentifier::find_type|")
+M("C15-template-scope-passed-unchecked", "C15", F_PP,
+  """        } else if (decl->get_template_scope() == nullptr) {
+          // The template's parameter list is not known here (a member
+          // template of an instantiated class template); its arguments
+          // cannot be parsed.
+          error(string("cannot instantiate template '") + ident->get_fully_scoped_name() + "' here", loc);
+          nested_skip_template_instantiation(nullptr);
+        } else {""", "        } else {",
+  expect="R15.25|CPPPreprocessor::get_next_token|nested_parse_template_instantiation(#0")
+M("C15-output-template-header-without-is-template", "C15", "src/cppparser/cppConcept.cxx",
+  "  if (is_template()) {\n    get_template_scope()->_parameters.write_formal(out, scope);\n    indent(out, indent_level);\n  }\n",
+  "  get_template_scope()->_parameters.write_formal(out, scope);\n  indent(out, indent_level);\n",
+  expect="R15.25|CPPConcept::output|")
+M("C15-benign-template-scope-tested-directly", "C15", "src/cppparser/cppConcept.cxx",
+  "  if (is_template()) {\n    get_template_scope()->_parameters.write_formal(out, scope);",
+  "  if (get_template_scope() != nullptr) {\n    get_template_scope()->_parameters.write_formal(out, scope);", benign=True)
